@@ -595,7 +595,8 @@ Definition expected_dispatch (prefixes : list string) (key : string) : list stri
         comparison with the real lexer):
         - an unsigned number that begins like a ZAID with a library, dddd.dde (4 to 6 digits, two decimals, e/E):
           the ZAID rule comes before the NUMBER rule;
-        - a Fortran exponent directly after the decimal point (5.+3): fortran_float raises ValueError. *)
+        - a Fortran exponent directly after the decimal point (5.+3): fortran_float raises ValueError.
+        The translator records in Gen/Tables.v whether the source under test still has either quirk. *)
 Definition is_digit (a : ascii) : bool := let n := nat_of_ascii a in Nat.leb 48 n && Nat.leb n 57.
 Fixpoint skip_digits (s : string) : nat * string :=
   match s with
@@ -617,7 +618,9 @@ Fixpoint dot_sign (after_dot : bool) (s : string) : bool :=
   | String a r =>
       (after_dot && (Ascii.eqb a "+"%char || Ascii.eqb a "-"%char)) || dot_sign (Ascii.eqb a "."%char) r
   end.
-Definition number_text_safe (s : string) : bool := negb (zaid_like_text s) && negb (dot_sign false s).
+Definition number_text_safe (s : string) : bool :=
+  (Gen.Tables.zaid_rule_stops_before_exponent || negb (zaid_like_text s))
+  && (Gen.Tables.fortran_exponent_after_point || negb (dot_sign false s)).
 Definition lex_safe (ts : list token) : bool :=
   forallb (fun t => if String.eqb (fst t) "NUMBER" || String.eqb (fst t) "NULL" then number_text_safe (snd t) else true) ts.
 
